@@ -1,6 +1,7 @@
 import SwiftMT.Fields.Simple
 import SwiftMT.Spec.FieldDocs
 import SwiftMT.Lemmas.Prim
+import SwiftMT.Props.C11
 /-
 C05 — field parsers accept exactly their documented SWIFT format.
 
@@ -1880,5 +1881,291 @@ theorem accepts_iff_23E (s : Text) : (F23E.parse s).isOk = true ↔ Doc23E s := 
     · have := f23E_write code (some info) h4 hc (by intro i hi; cases hi; exact hx)
       unfold F23E.ser at this; simp only at this
       rw [hs, this]; rfl
+
+
+/-! ### 13D: a calendar date, a time of day, a sign and an offset of at most 14:59 — and nothing else -/
+
+theorem ofOption_ok {α : Type} {o : Option α} {a : α} (h : Res.ofOption o = .ok a) : o = some a := by
+  cases o with
+  | none => simp [Res.ofOption] at h
+  | some x => simp [Res.ofOption] at h; subst h; rfl
+
+theorem hhmm_parse (t : Text) (tm : Nat × Nat) (h : parseTimeHHMM t = some tm) : hhmm tm = t := by
+  obtain ⟨hh, mm⟩ := tm
+  obtain ⟨a, b, c, d, ha, hb, hc, hd, rfl, rfl, rfl, _, _⟩ := (C11.time_accept_iff t hh mm).mp h
+  unfold hhmm
+  simp only
+  rw [C11.fmt2_digits ha hb, C11.fmt2_digits hc hd]
+  rfl
+
+/-- 13D -/
+theorem f13D_reproduces (s : Text) (v : F13D) (h : F13D.parse s = .ok v) : F13D.ser v = s := by
+  unfold F13D.parse at h
+  split at h; · cases h
+  rename_i hasc
+  split at h; · cases h
+  rename_i hlen
+  have ha : isAsciiT s = true := by simpa using hasc
+  have hl : s.length = 15 := by
+    have : blen s = 15 := by simpa using hlen
+    rw [blen_ascii s ha] at this; exact this
+  rw [bslice_ascii s 0 6 ha (by omega) (by omega)] at h
+  simp only [Res.bind_ok] at h
+  obtain ⟨date, hd, h⟩ := bind_ok_inv h
+  rw [bslice_ascii s 6 10 ha (by omega) (by omega)] at h
+  simp only [Res.bind_ok] at h
+  obtain ⟨_, _, h⟩ := bind_ok_inv h
+  obtain ⟨time, ht, h⟩ := bind_ok_inv h
+  obtain ⟨c, hc⟩ : ∃ c, s[10]? = some c := ⟨s[10], List.getElem?_eq_getElem (by omega)⟩
+  rw [hc] at h
+  simp only [Res.unwrap, Res.bind_ok] at h
+  split at h; · cases h
+  rw [bslice_ascii s 11 15 ha (by omega) (by omega)] at h
+  simp only [Res.bind_ok] at h
+  obtain ⟨off, hoff, h⟩ := bind_ok_inv h
+  obtain ⟨_, _, h⟩ := bind_ok_inv h
+  obtain ⟨_, _, h⟩ := bind_ok_inv h
+  cases h
+  have hoff' : off = List.take (15 - 11) (List.drop 11 s) := by
+    unfold parseExactLength at hoff; split at hoff
+    · cases hoff; rfl
+    · cases hoff
+  have hp := C11.print_parse _ _ (ofOption_ok hd)
+  have hq := hhmm_parse _ _ (ofOption_ok ht)
+  unfold F13D.ser
+  simp only
+  rw [hp, hq, hoff']
+  have e10 : s.drop 10 = c :: s.drop 11 := by
+    have hlt : 10 < s.length := by omega
+    have : s[10] = c := by
+      have := List.getElem?_eq_getElem hlt
+      rw [this] at hc; exact Option.some.inj hc
+    rw [← this]; exact List.drop_eq_getElem_cons hlt
+  have e11 : (s.drop 11).take (15 - 11) = s.drop 11 := List.take_of_length_le (by simp [List.length_drop]; omega)
+  rw [e11]
+  have e6 : (s.drop 6).take (10 - 6) ++ s.drop 10 = s.drop 6 := by
+    have := List.take_append_drop 4 (s.drop 6)
+    rw [List.drop_drop] at this
+    simpa using this
+  calc (s.drop 0).take (6 - 0) ++ (s.drop 6).take (10 - 6) ++ c :: s.drop 11
+      = s.take 6 ++ ((s.drop 6).take (10 - 6) ++ s.drop 10) := by rw [e10]; simp
+    _ = s.take 6 ++ s.drop 6 := by rw [e6]
+    _ = s := List.take_append_drop 6 s
+
+theorem digitVal_of_isDigit {c : Char} (h : c.isDigit = true) : ∃ k, digitVal c = some k := by
+  rw [isDigit_iff] at h
+  unfold isDigitC at h
+  cases hd : digitVal c with
+  | none => simp [hd] at h
+  | some k => exact ⟨k, rfl⟩
+
+theorem isDigit_of_digitVal {c : Char} {k : Nat} (h : digitVal c = some k) : c.isDigit = true := by
+  rw [isDigit_iff]; unfold isDigitC; simp [h]
+
+theorem digitsVal_two {a b : Char} {x y : Nat} (ha : digitVal a = some x) (hb : digitVal b = some y) :
+    digitsVal [a, b] 0 = 10 * x + y := by
+  simp [digitsVal, ha, hb]
+
+/-- the inline offset check of 13C / 13D is the calendar model's `parseOffset` -/
+theorem offset_model_iff (sign : Char) (off : Text) (hlen : off.length = 4) :
+    ((sign = '+' ∨ sign = '-') ∧ off.all Char.isDigit = true ∧ offsetOk off = .ok ()) ↔ (parseOffset sign off).isSome = true := by
+  match off, hlen with
+  | [a, b, c, d], _ =>
+    constructor
+    · rintro ⟨hs, hd, hok⟩
+      simp only [List.all_cons, List.all_nil, Bool.and_true, Bool.and_eq_true] at hd
+      obtain ⟨x, hx⟩ := digitVal_of_isDigit hd.1
+      obtain ⟨y, hy⟩ := digitVal_of_isDigit hd.2.1
+      obtain ⟨z, hz⟩ := digitVal_of_isDigit hd.2.2.1
+      obtain ⟨w, hw⟩ := digitVal_of_isDigit hd.2.2.2
+      have hasc : isAsciiT [a, b, c, d] = true := all_digit_ascii _ (by simp [hd.1, hd.2.1, hd.2.2.1, hd.2.2.2])
+      unfold offsetOk at hok
+      rw [bslice_ascii _ 0 2 hasc (by omega) (by simp), bslice_ascii _ 2 4 hasc (by omega) (by simp)] at hok
+      simp only [Res.bind_ok, List.drop_zero, Nat.sub_zero, List.take_succ_cons, List.take_zero, List.drop_succ_cons,
+        List.isEmpty_cons, Bool.false_eq_true, if_false, Res.unwrap] at hok
+      have e1 : digitsVal [a, b] 0 = 10 * x + y := digitsVal_two hx hy
+      have e2 : digitsVal [c, d] 0 = 10 * z + w := digitsVal_two hz hw
+      simp only [show (4 : Nat) - 2 = 2 from rfl, List.take_succ_cons, List.take_zero, e1, e2] at hok
+      unfold parseOffset
+      have hs' : (sign == '+' || sign == '-') = true := by rcases hs with rfl | rfl <;> decide
+      simp only [hs', if_true, hx, hy, hz, hw]
+      split at hok
+      · cases hok
+      · rename_i hb
+        have : (decide (10 * x + y ≤ 14) && decide (10 * z + w ≤ 59)) = true := by
+          simp only [Bool.or_eq_true, decide_eq_true_eq, not_or, Nat.not_lt] at hb
+          simp [hb.1, hb.2]
+        simp [this]
+    · intro h
+      unfold parseOffset at h
+      by_cases hs : (sign == '+' || sign == '-') = true
+      · simp only [hs, if_true] at h
+        cases hx : digitVal a with
+        | none => simp [hx] at h
+        | some x =>
+        cases hy : digitVal b with
+        | none => simp [hx, hy] at h
+        | some y =>
+        cases hz : digitVal c with
+        | none => simp [hx, hy, hz] at h
+        | some z =>
+        cases hw : digitVal d with
+        | none => simp [hx, hy, hz, hw] at h
+        | some w =>
+          simp only [hx, hy, hz, hw] at h
+          by_cases hv : (decide (10 * x + y ≤ 14) && decide (10 * z + w ≤ 59)) = true
+          · simp only [Bool.and_eq_true, decide_eq_true_eq] at hv
+            have hs2 : sign = '+' ∨ sign = '-' := by simpa using hs
+            have hd : [a, b, c, d].all Char.isDigit = true := by
+              simp [isDigit_of_digitVal hx, isDigit_of_digitVal hy, isDigit_of_digitVal hz, isDigit_of_digitVal hw]
+            refine ⟨hs2, hd, ?_⟩
+            have hasc := all_digit_ascii _ hd
+            unfold offsetOk
+            rw [bslice_ascii _ 0 2 hasc (by omega) (by simp), bslice_ascii _ 2 4 hasc (by omega) (by simp)]
+            simp only [Res.bind_ok, List.drop_zero, Nat.sub_zero, List.take_succ_cons, List.take_zero, List.drop_succ_cons,
+              List.isEmpty_cons, Bool.false_eq_true, if_false, Res.unwrap,
+              digitsVal_two hx hy, digitsVal_two hz hw]
+            have : ¬ ((decide (10 * x + y > 14) || decide (10 * z + w > 59)) = true) := by
+              simp only [Bool.or_eq_true, decide_eq_true_eq, not_or, Nat.not_lt]; exact ⟨hv.1, hv.2⟩
+            simp only [this, if_false]; rfl
+          · simp [hv] at h
+      · simp [hs] at h
+
+
+theorem date_shape (t : Text) (h : Doc.Date t) : t.length = 6 ∧ t.all Char.isDigit = true := by
+  unfold Doc.Date at h
+  cases hp : parseDateYYMMDD t with
+  | none => simp [hp] at h
+  | some x =>
+    obtain ⟨a, b, c, d, e, f, ha, hb, hc, hd, he, hf, rfl, _, _⟩ := (C11.date_accept_iff t x).mp hp
+    refine ⟨rfl, ?_⟩
+    simp [isDigit_of_digitVal (C11.digitVal_digitChar ha), isDigit_of_digitVal (C11.digitVal_digitChar hb),
+      isDigit_of_digitVal (C11.digitVal_digitChar hc), isDigit_of_digitVal (C11.digitVal_digitChar hd),
+      isDigit_of_digitVal (C11.digitVal_digitChar he), isDigit_of_digitVal (C11.digitVal_digitChar hf)]
+
+theorem time_shape (t : Text) (h : Doc.Time t) : t.length = 4 ∧ t.all Char.isDigit = true := by
+  unfold Doc.Time at h
+  cases hp : parseTimeHHMM t with
+  | none => simp [hp] at h
+  | some x =>
+    obtain ⟨hh, mm⟩ := x
+    obtain ⟨a, b, c, d, ha, hb, hc, hd, rfl, _, _, _, _⟩ := (C11.time_accept_iff t hh mm).mp hp
+    refine ⟨rfl, ?_⟩
+    simp [isDigit_of_digitVal (C11.digitVal_digitChar ha), isDigit_of_digitVal (C11.digitVal_digitChar hb),
+      isDigit_of_digitVal (C11.digitVal_digitChar hc), isDigit_of_digitVal (C11.digitVal_digitChar hd)]
+
+theorem offset_shape (sign : Char) (t : Text) (h : Doc.SignedOffset sign t) : t.length = 4 := by
+  unfold Doc.SignedOffset parseOffset at h
+  split at h
+  · split at h
+    · rfl
+    · simp at h
+  · simp at h
+
+/-- 13D `6!n4!n1!x4!n`: accepted exactly when it is a calendar date, a time of day, a sign and an offset of at most 14:59 -/
+theorem accepts_iff_13D (s : Text) : (F13D.parse s).isOk = true ↔ Doc.F13D s := by
+  constructor
+  · intro h
+    cases hp : F13D.parse s with
+    | err => rw [hp] at h; simp [Res.isOk] at h
+    | panic => rw [hp] at h; simp [Res.isOk] at h
+    | ok v =>
+      have hrep := f13D_reproduces s v hp
+      unfold F13D.parse at hp
+      split at hp; · cases hp
+      rename_i hasc
+      split at hp; · cases hp
+      rename_i hlen
+      have ha : isAsciiT s = true := by simpa using hasc
+      have hl : s.length = 15 := by
+        have : blen s = 15 := by simpa using hlen
+        rw [blen_ascii s ha] at this; exact this
+      rw [bslice_ascii s 0 6 ha (by omega) (by omega)] at hp
+      simp only [Res.bind_ok] at hp
+      obtain ⟨date, hd, hp⟩ := bind_ok_inv hp
+      rw [bslice_ascii s 6 10 ha (by omega) (by omega)] at hp
+      simp only [Res.bind_ok] at hp
+      obtain ⟨_, _, hp⟩ := bind_ok_inv hp
+      obtain ⟨time, ht, hp⟩ := bind_ok_inv hp
+      obtain ⟨c, hc⟩ : ∃ c, s[10]? = some c := ⟨s[10], List.getElem?_eq_getElem (by omega)⟩
+      rw [hc] at hp
+      simp only [Res.unwrap, Res.bind_ok] at hp
+      split at hp; · cases hp
+      rename_i hsign
+      rw [bslice_ascii s 11 15 ha (by omega) (by omega)] at hp
+      simp only [Res.bind_ok] at hp
+      obtain ⟨off, hoff, hp⟩ := bind_ok_inv hp
+      obtain ⟨_, hnum, hp⟩ := bind_ok_inv hp
+      obtain ⟨_, hok, hp⟩ := bind_ok_inv hp
+      cases hp
+      have hoff' : off = List.take (15 - 11) (List.drop 11 s) := by
+        unfold parseExactLength at hoff; split at hoff
+        · cases hoff; rfl
+        · cases hoff
+      have hofflen : off.length = 4 := by rw [hoff']; simp [List.length_take, List.length_drop]; omega
+      have hs2 : c = '+' ∨ c = '-' := by
+        by_cases h1 : c = '+'
+        · exact Or.inl h1
+        · by_cases h2 : c = '-'
+          · exact Or.inr h2
+          · exfalso; apply hsign; simp [h1, h2]
+      have hdig : off.all Char.isDigit = true := by unfold parseNumeric at hnum; exact guard_ok hnum
+      have hso : Doc.SignedOffset c off := (offset_model_iff c off hofflen).mp ⟨hs2, hdig, hok⟩
+      have hp1 := C11.print_parse _ _ (ofOption_ok hd)
+      have hq1 := hhmm_parse _ _ (ofOption_ok ht)
+      refine ⟨(s.drop 0).take (6 - 0), (s.drop 6).take (10 - 6), c, off, ?_, ?_, ?_, hso⟩
+      · unfold F13D.ser at hrep; simp only at hrep
+        rw [hp1, hq1] at hrep; exact hrep.symm
+      · unfold Doc.Date; rw [ofOption_ok hd]; rfl
+      · unfold Doc.Time; rw [ofOption_ok ht]; rfl
+  · rintro ⟨date, time, sign, off, rfl, hd, ht, ho⟩
+    obtain ⟨d1, d2⟩ := date_shape date hd
+    obtain ⟨t1, t2⟩ := time_shape time ht
+    have o1 := offset_shape sign off ho
+    obtain ⟨hs2, hdig, hok⟩ := (offset_model_iff sign off o1).mpr ho
+    have hsa : isAsciiC sign = true := by rcases hs2 with rfl | rfl <;> decide
+    have hall : isAsciiT (date ++ time ++ sign :: off) = true := by
+      have := all_digit_ascii date d2
+      have := all_digit_ascii time t2
+      have := all_digit_ascii off hdig
+      unfold isAsciiT at *
+      simp only [List.all_append, List.all_cons, *, Bool.and_true, Bool.true_and]
+    have hlen : (date ++ time ++ sign :: off).length = 15 := by simp [d1, t1, o1]
+    have e0 : ((date ++ time ++ sign :: off).drop 0).take (6 - 0) = date := by
+      simp only [List.drop_zero, Nat.sub_zero, List.append_assoc]
+      rw [List.take_append_of_le_length (by omega)]; exact List.take_of_length_le (by omega)
+    have e6 : ((date ++ time ++ sign :: off).drop 6).take (10 - 6) = time := by
+      simp only [List.append_assoc]
+      rw [List.drop_append_of_le_length (by omega), List.drop_of_length_le (by omega), List.nil_append]
+      rw [List.take_append_of_le_length (by omega)]; exact List.take_of_length_le (by omega)
+    have e10 : (date ++ time ++ sign :: off)[10]? = some sign := by
+      rw [List.getElem?_append_right (by simp [d1, t1])]
+      simp [d1, t1]
+    have e11 : ((date ++ time ++ sign :: off).drop 11).take (15 - 11) = off := by
+      have : (date ++ time ++ sign :: off).drop 11 = off := by
+        have h10 : (date ++ time ++ sign :: off).drop 10 = sign :: off := by
+          rw [List.drop_append_of_le_length (by simp [d1, t1])]
+          rw [List.drop_of_length_le (by simp [d1, t1])]; rfl
+        have : (date ++ time ++ sign :: off).drop 11 = ((date ++ time ++ sign :: off).drop 10).drop 1 := by rw [List.drop_drop]
+        rw [this, h10]; rfl
+      rw [this]; exact List.take_of_length_le (by omega)
+    unfold F13D.parse
+    have hb : blen (date ++ time ++ sign :: off) = 15 := by rw [blen_ascii _ hall]; exact hlen
+    simp only [hall, Bool.not_true, Bool.false_eq_true, if_false, hb, bne_self_eq_false]
+    rw [bslice_ascii _ 0 6 hall (by omega) (by omega), bslice_ascii _ 6 10 hall (by omega) (by omega),
+      bslice_ascii _ 11 15 hall (by omega) (by omega)]
+    simp only [Res.bind_ok, e0, e6, e10, e11, Res.unwrap]
+    unfold Doc.Date at hd; unfold Doc.Time at ht
+    cases hpd : parseDateYYMMDD date with
+    | none => simp [hpd] at hd
+    | some dv =>
+    cases hpt : parseTimeHHMM time with
+    | none => simp [hpt] at ht
+    | some tv =>
+      have hsn : ¬ ((sign != '+' && sign != '-') = true) := by rcases hs2 with rfl | rfl <;> decide
+      have hob : blen off = 4 := by rw [blen_ascii off (all_digit_ascii off hdig)]; exact o1
+      simp only [Res.ofOption, Res.bind_ok, parseNumeric, Res.guard, t2, if_true, hsn, if_false, parseExactLength, hob,
+        beq_self_eq_true, hdig, hok, Res.pure_eq]
+      rfl
 
 end SwiftMT.Props.C05
